@@ -674,6 +674,7 @@ func checkC20(p *Prog, res *Result, tier string) {
 	checkStreamResponsesComplete(p, res, "C20-R2")
 	// R7: self-deadlock (C19-R5)
 	checkSelfDeadlock(p, p.lockContext(), res, "C20-R7")
+	checkLockPairing(p, res, "C20-R7")
 	// the in-process engine holds its store lock from BeginBatchWrite to Commit: a batch that is begun and not
 	// committed on some path wedges every later request (C11-R2, C01-R2 commit discipline)
 	{
